@@ -89,6 +89,10 @@ func check(c Case, o *vf.Obs) error {
 		if err := ag.Compare(w, g, extraOK); err != nil {
 			return fmt.Errorf("preload=%v: item %d (pass %d, entry %d of %d): %v", c.Preload, k, k/len(want), k%len(want), len(want), err)
 		}
+		// what an instance does with the ammo before it releases it: the built-in gun points req.URL at its target;
+		// an entry that is delivered again (next pass of a preloaded or array file, a pooled ammo object) must not
+		// remember that
+		ag.ShootLikeGun(a, k%2 == 1, "127.0.0.9:8080")
 		k++
 		return nil
 	})
